@@ -41,6 +41,15 @@ CHECKS = {
  "C11": ("explicit-state BFS over registration histories (real GetOrRegisterKey as transition function, canonical key-map states) plus exhaustive evaluation under every reached layout through every context constructor",
          "All injective pre-populations of <=3 names over 9 boundary keys, all registration orders of 4 names (BFS to fixpoint), scaled families 1..n (+hole) for n up to 70 and around 128/256 (thorough: every n<=300 and 4096/32766): returned key = stored key, injective, no reassignment; every complete layout x undefined-mode off/on evaluates the positional expression correctly through NewCtxFromVars, both fetcher constructors and package-level Eval with ExtendConf and unrelated extra bindings; RegVarAndOp under 200 map orders; every convertible Go type under 7 key positions.",
          "Keys drawn from a boundary alphabet of the int16 range.", "4 C11"),
+ "C13": ("exhaustive enumeration of literal contents and small programs, Dump -> Compile -> Dump round trip on the real code",
+         "Every string <=2 (3) over 14 nasty characters and boundary ints as literal, list element and ConstantMap constant in 7-8 contexts, and every CORE/RICH program <=5 (6) nodes, x 16 subsets x 3 event modes: Dump text recompiles under the same names, the recompiled program agrees with the original on every binding, and Dump of the unoptimised recompilation is the same text.",
+         "String literals never contain a double quote (the lexer cannot produce one).", "4 C13"),
+ "C14": ("exhaustive enumeration of re-layouts (separator assignment per token gap, deviation-bounded for long sources) and of formatter inputs, against the real lexer/parser/formatter with an independent tokenizer as oracle",
+         "Every tree <=4 (5) nodes with nasty string/list literals, prefix and infix: every assignment of 8 separators (none/blank/newline/tab/U+00A0/U+2028/comment/comment with parens+quote) to every gap for short sources, <=2 (3) deviations otherwise; directives honoured before and ignored after the first token; IndentByParentheses applied 1..3 times to layout samples and to every lexable character string <=5 (6) over 17 characters keeps the token/comment sequence and the compiled program.",
+         "Whitespace is only removed next to a paren/bracket/comma; the independent tokenizer implements the documented token rules.", "4 C14"),
+ "C15": ("exhaustive enumeration of expression trees rendered to infix four ways, compiled by the real infix and prefix parsers",
+         "All trees <=5 (6) nodes over one operator per precedence class incl. non-commutative ones, !, calls, if, lists and 7 atoms; all shapes <=7 (9) nodes over one atom; all 16 binary spellings <=4 (5): infix renderings with minimal / full / redundant parentheses and glued spacing compile to the same Dump and DumpTable as the prefix form and evaluate identically.",
+         "The minimal-parentheses renderer encodes the statement's precedence table and left associativity; nested unary ! operands are parenthesised.", "4 C15"),
 }
 
 NOT_YET = {}
